@@ -8,6 +8,10 @@ NOTE = ("Trusted: go/packages+go/ssa v0.29.0, the symgo interpreter (fork of x/t
         "natively (go test -overlay / the real binary) before it is reported, so the models can cause misses, not alarms.")
 
 claimed = {
+ "C01": dict(level="translation_validation", design="4 C01", tech="translation validation: emitted Go vs. hand-written reference Go, both executed symbolically from go/ssa with symbolic runtime inputs + SMT (z3)",
+   text="fc is built from the current tree and run on a hand-kept corpus (let/closures, partial application, pipes, if/elif/else, &&/||, union and string match, records, tuples, slices, destructuring, interpolation, blocks as values, top-level variables); go build decides that the emitted Go compiles; then emitted functions and references written against strict left-to-right call-by-value semantics run symbolically on the same symbolic inputs and z3 discharges equal results and equal effect traces for all input values. Bound: the corpus; slices <= 3/4 elements."),
+ "C03": dict(level="translation_validation", design="4 C03", tech="translation validation: hand-written Go client / generated foreign-call family against emitted Go, executed symbolically + SMT (z3); go/types decides 'client compiles'",
+   text="A declaration corpus (records, generic records, unions with/without payload, generic unions, top-level funcs/vars, tuples) is transpiled by the freshly built fc and linked with a hand-written Go client that uses only the documented names; go build decides that the client compiles, symgo that it computes what the documentation implies. A generated family of 58 foreign-call forms (arity 1..4 x arguments at the binding x direct/partial/piped, package _ and named package, explicit type arguments) is compared with an asymmetric reference for all argument values."),
  "C05": dict(level="model_checking", design="4 C05", tech="SSA symbolic execution of the real main() under a map-iteration-order oracle (nondeterministic choice per range-over-map), cross-path output comparison",
    text="The real main/transpileFiles run from go/ssa on a template set with every map iteration order turned into a choice of the engine (all permutations for <= 3 entries, insertion/reverse/rotate above) inside a window of 4 (quick) / 5 (thorough) consecutive iteration events that slides over all events of the run, plus two global strategies; all explored paths must agree on exit status and output files. A difference is confirmed against the real binary (repeated runs, then a dict shim with sorted/reversed/rotated enumeration) before it is reported."),
  "C06": dict(level="model_checking", design="4 C06", tech="SSA symbolic execution: byte-level scanner/column lemma + whole-parser runs with every line's indentation a symbolic integer + SMT (z3)",
